@@ -6,18 +6,20 @@
 set -u
 export GOFLAGS=-mod=mod GOPROXY=off
 dir=$(realpath "$1"); demo=$2; dest=$3; shift 3
+# NETNS=1: run go test inside a private network namespace (root-package tests bind fixed ports)
+gotest() { if [ "${NETNS:-0}" = 1 ]; then unshare -n bash -c 'ip link set lo up; ip link set lo multicast on 2>/dev/null; ip route add 224.0.0.0/4 dev lo 2>/dev/null; cd "$0" && shift 0 && go test "$@"' "$PWD" "$@"; else go test "$@"; fi; }
 wt=$(mktemp -d /tmp/confwt-XXXXXX); rmdir "$wt"
 git -C /repo worktree add -q "$wt" HEAD || exit 2
 ok=1
 cp "$dir/$demo" "$wt/$dest"
 pkg=./$(dirname "$dest")
-(cd "$wt" && go test -mod=mod -vet=off -count=1 -run 'Demo' "$pkg" >/tmp/conf.$$ 2>&1) && echo "1 demo passes on clean tree: yes" || { echo "1 demo passes on clean tree: NO"; tail -5 /tmp/conf.$$; ok=0; }
+(cd "$wt" && gotest -mod=mod -vet=off -count=1 -run 'Demo' "$pkg" >/tmp/conf.$$ 2>&1) && echo "1 demo passes on clean tree: yes" || { echo "1 demo passes on clean tree: NO"; tail -5 /tmp/conf.$$; ok=0; }
 rm -f "$wt/$dest"
 (cd "$wt" && git apply "$dir/patch.diff") && echo "2a patch applies: yes" || { echo "2a patch applies: NO"; ok=0; }
 (cd "$wt" && go build . ./pkg/... ./internal/... >/tmp/conf.$$ 2>&1) && echo "2b builds: yes" || { echo "2b builds: NO"; tail -5 /tmp/conf.$$; ok=0; }
-(cd "$wt" && go test -mod=mod -vet=off -count=1 "$@" >/tmp/conf.$$ 2>&1) && echo "3 existing tests pass with the change: yes ($*)" || { echo "3 existing tests pass with the change: NO ($*)"; tail -8 /tmp/conf.$$; ok=0; }
+(cd "$wt" && gotest -mod=mod -vet=off -count=1 "$@" >/tmp/conf.$$ 2>&1) && echo "3 existing tests pass with the change: yes ($*)" || { echo "3 existing tests pass with the change: NO ($*)"; tail -8 /tmp/conf.$$; ok=0; }
 cp "$dir/$demo" "$wt/$dest"
-(cd "$wt" && go test -mod=mod -vet=off -count=1 -run 'Demo' "$pkg" >/tmp/conf.$$ 2>&1) && { echo "4 demo fails with the change: NO (it passed)"; ok=0; } || echo "4 demo fails with the change: yes"
+(cd "$wt" && gotest -mod=mod -vet=off -count=1 -run 'Demo' "$pkg" >/tmp/conf.$$ 2>&1) && { echo "4 demo fails with the change: NO (it passed)"; ok=0; } || echo "4 demo fails with the change: yes"
 rm -f /tmp/conf.$$
 git -C /repo worktree remove --force "$wt"
 [ $ok = 1 ] && echo CONFIRMED || echo NOT-CONFIRMED
